@@ -109,7 +109,7 @@ J('C.strchr_s', ['C10', 'C02', 'C05', 'C01'], 'C', 'contracts/extstr/strchr_s.sp
   assumptions=['libc memchr behaves as the C standard says (ghost body in contracts/extstr/strchr_s.spec.c)',
                'the restated _strnlen_s_chk contract (result = smax or index of the first NUL) is the one job A.strnlen_s proves for the real function; the correspondence of the two texts is by inspection'])
 
-J('C.getenv_s', ['C05'], 'C', 'contracts/os_getenv_s.spec.c',
+J('C.getenv_s', ['C05', 'C08'], 'C', 'contracts/os_getenv_s.spec.c',
   sources=['src/os/getenv_s.c'], enforce='_getenv_s_chk', functions=['_getenv_s_chk'], timeout=300,
   note='loop-free wrapper, full domain; getenv/secure_getenv and strlen assumed, _strcpy_s_chk replaced by the contract proved in A.strcpy_s (restated for a valid call; its requires side is the C05 obligation at the call site)',
   assumptions=['getenv / secure_getenv return NULL or a NUL-terminated string in an object of its own; strlen returns its length (ghost bodies in contracts/os_getenv_s.spec.c)',
